@@ -450,4 +450,52 @@ example :
         (.node none 4 0 0 [.node (some ⟨2, 2, 3, [(.cls 3, 1), (.int, 1)]⟩) 3 1 1 [.int 2]])).1.nodes = 6 ∧
     (relabelE ExE.g (some (.cls 0)) (.node 3 1 1 [.int 2])).weighted = 3 := by decide
 
+
+/-- a completely labelled tree is handed back untouched in either depth mode: labels are reused -/
+theorem C11_expansion_memo_reuses (g : Grammar) (decl : Option Ty) (t : LVal) (h : t.fullyLabelled = true) :
+    (relabelMemoE g decl t).2 = t :=
+  memoE_fixes_labelled g decl t h
+
+/-- afterwards every class instance and every list of the program carries labels (either depth mode) -/
+theorem C11_expansion_memo_fully_labelled (g : Grammar) (decl : Option Ty) (t : LVal)
+    (hl : t.labelClosed = true) (ha : ArgsMatchTerminality g t.erase) :
+    (relabelMemoE g decl t).2.fullyLabelled = true :=
+  memoE_fullyLabelled g decl t ha hl
+
+/-- Expansion-mode counterpart of `C11_memo_every_node`: if the stored labels are correct for the declared types of their
+positions and labelling happened bottom-up, then after `relabel_nodes` EVERY class instance and list `x` of the program --
+taken with the declared type `d` of its position -- carries labels, and they are the expansion-mode specification
+evaluated on `x` at `d`: reused subtrees carry no stale values in expansion mode either. -/
+theorem C11_expansion_memo_every_node (g : Grammar) (h : g.e = 1) (decl : Option Ty) (t : LVal)
+    (hc : CachesCorrectE g decl t) (hl : t.labelClosed = true) (ha : ArgsMatchTerminality g t.erase) :
+    ∀ p ∈ LVal.declSubtrees g decl (relabelMemoE g decl t).2, p.2.canCache = true →
+      ∃ l, p.2.rootCache = some l ∧
+        l.nodes = nodesSpecE g p.1 p.2.erase ∧ l.dtt = dttSpecE g p.1 p.2.erase ∧
+        l.weighted = weightedSpecE g p.1 p.2.erase ∧
+        ∀ k, lookupCount l.types k = typeCountSpec p.2.erase k := by
+  intro p hp hcan
+  obtain ⟨-, hera, hcc⟩ := C11_expansion_memo_sound g decl t hc
+  have hfull := memoE_fullyLabelled g decl t ha hl
+  have hroot := labelledE_flat g decl _ hcc hfull p hp hcan
+  have hsub : p.2.erase ∈ t.erase.subvalues :=
+    hera ▸ erase_mem_subvalues _ p.2 (declSubtrees_mem_subtrees g decl _ p hp)
+  have hx' : ArgsMatchTerminality g p.2.erase := ha.sub hsub
+  exact ⟨_, hroot, C11_expansion_nodes_spec g h p.1 _ hx', C11_expansion_dtt_spec g h p.1 _,
+    C11_expansion_weighted_spec g h p.1 _ hx', C11_expansion_types_spec g p.1 _ hx'⟩
+
+private theorem seqProg_ok : ArgsMatchTerminality ExE.g ExE.seqProg := by
+  intro c d e args hm ht
+  simp [ExE.seqProg, Val.subvalues, Val.subvaluesList] at hm
+  rcases hm with h | h | h | h <;> first
+    | exact h.2.2.2
+    | (obtain ⟨rfl, -, -, -⟩ := h; exact absurd ht (by decide))
+
+/-- the hypotheses are satisfiable: the fresh (unlabelled) `Seq([Lit(1), Neg(Lit(2))])` at the start symbol -/
+example := C11_expansion_memo_every_node ExE.g (by decide) (some (.cls 0)) (LVal.fresh ExE.seqProg)
+  (freshE_ok ExE.g _ _) (by decide) (by rw [erase_fresh]; exact seqProg_ok)
+/-- and it has cacheable subtrees: 5 class instances / lists, each with its declared type -/
+example : ((LVal.declSubtrees ExE.g (some (.cls 0)) (relabelMemoE ExE.g (some (.cls 0)) (LVal.fresh ExE.seqProg)).2).filter
+    fun p => p.2.canCache).length = 5 := by decide
+example : (relabelMemoE ExE.g (some (.cls 0)) (LVal.fresh ExE.seqProg)).2.fullyLabelled = true := by decide
+
 end GEVerif.C11
